@@ -232,6 +232,24 @@ Theorem C08_history_prefix : forall k S a b, run_calls k S (a ++ b) = run_calls 
 Proof. exact run_calls_app. Qed.
 Print Assumptions C08_history_prefix.
 
+(* histories in which the caller hands over the same array objects again and updates them in place between calls:
+   every result is the result of the call on the contents the array had at that moment (so C08_history_independent /
+   C08_repeat_call apply to those snapshots: nothing remembered from an earlier call, by value or by alias, can show),
+   and the caller's arrays change only through the caller's own writes *)
+Theorem C08_alias_history : forall k S ops bufs,
+  fst (run_hist k S bufs ops) = run_calls k S (snapshots bufs ops) /\
+  snd (run_hist k S bufs ops) = apply_sets bufs ops.
+Proof. intros k S ops bufs. split; [apply run_hist_results | apply run_hist_buffers]. Qed.
+Print Assumptions C08_alias_history.
+
+(* constructor histories with a changing session default package: a call without `thermo` is the call with the default
+   package AT THAT MOMENT (resolved before the cache is consulted), so C08_cache_coherent / C08_cache_identity hold for
+   the resolved keys *)
+Theorem C08_session_default : forall (A : Type) (build : key -> res A) ops dflt,
+  run_session build ([], 0%nat) dflt ops = fst (cache_run build ([], 0%nat) (resolved_keys dflt ops)).
+Proof. intros A build ops dflt. apply run_session_cache_run. Qed.
+Print Assumptions C08_session_default.
+
 (* the residual kernels and the composition arguments, as translated from the current source of /repo by
    tr/C08_kernels.py (regenerated on every run), are the functions the theorems above are about *)
 Theorem C08_generated_kernels_agree :
